@@ -3160,6 +3160,9 @@ class sptensor:
         empty sparse tensor of shape (2, 2) with order F
         """
         if isinstance(other, (float, int, np.number)):
+            if not np.isfinite(other):
+                # An implicit zero times an infinity or NaN is NaN as well
+                return (self.full() * other).to_sptensor()
             if self.nnz == 0:
                 return self.copy()
             return _without_zero_values(self.subs, self.vals * other, self.shape)
